@@ -57,6 +57,7 @@ type tdCtx struct {
 	downAt  []int // sides that must be down before the injection (the handshake failed: the connect call closed them)
 	calls   []*tdCall
 	writers [2]*tdCall
+	dl      [2]*Stream // a stream with an armed read deadline and nobody reading
 	shut    *tdCall
 	reason  string
 	cause   int
@@ -123,6 +124,12 @@ func (x *tdCtx) startBlockedCallers(side int) {
 			n, _, err := st.ReadSCTP(buf)
 			c.out, c.detail = tdReadOutcome(n, err)
 		})
+	}
+	// a read deadline far in the future on a stream nobody reads: Stream.SetReadDeadline starts a goroutine
+	// that must end with the association
+	if st, err := a.OpenStream(8, PayloadTypeWebRTCBinary); err == nil && st != nil {
+		_ = st.SetReadDeadline(time.Now().Add(time.Hour))
+		x.dl[side] = st
 	}
 	x.start("acceptor", side, func(c *tdCall) {
 		st, err := a.AcceptStream()
@@ -676,6 +683,21 @@ func tdRunCrashPoint(t *testing.T, sc tdScenario, k int, inj string, side int, r
 				res.lines = append(res.lines, fmt.Sprintf("out %s %s %s %s %s %d %d", role, phase[sd], minj, c.kind, out, cause, sdc))
 				res.mu.Unlock()
 			}
+			if st := x.dl[sd]; st != nil {
+				st.lock.RLock()
+				alive := st.readTimeoutCancel != nil
+				st.lock.RUnlock()
+				out := "ended"
+				if alive {
+					out = "alive"
+					fail("read-deadline-goroutine-outlives-close", fmt.Sprintf("the goroutine of a read deadline armed on side %d (%s side, phase %s) is still waiting after %s", sd, role, phase[sd], minj))
+				}
+				if phase[sd] == "est" { // (the model has this goroutine in the established families)
+					res.mu.Lock()
+					res.lines = append(res.lines, fmt.Sprintf("out %s %s %s deadline %s %d -1", role, phase[sd], minj, out, cause))
+					res.mu.Unlock()
+				}
+			}
 		}
 		record(side, "inj", modelInj, -1)
 		// ---- the association's own goroutines, timers, channels
@@ -777,6 +799,10 @@ func tdRunCrashPoint(t *testing.T, sc tdScenario, k int, inj string, side int, r
 		}
 		if pw > res.wac {
 			res.wac = pw
+		}
+		// ---- no goroutine started by Stream.SetReadDeadline is left once both associations are down
+		if n := tdCountStack("(*Stream).SetReadDeadline.func1"); n > 0 {
+			fail("read-deadline-goroutine-outlives-close", fmt.Sprintf("%d read-deadline goroutines are alive after both associations went down", n))
 		}
 		// ---- timer census: late packets (to closed conns), 300 virtual seconds; every timer of both associations
 		// must be closed with no expiry outstanding, and no timer callback may have touched them
@@ -1031,13 +1057,17 @@ func tdCountStack(substr string) int {
 	return c
 }
 
-// TestVerifSimTeardownDeadline: Stream.SetReadDeadline starts a goroutine per armed deadline.  After the
-// association is closed, is it gone (a) when a reader was blocked (the reader cancels it on return),
-// (b) when nobody reads again?
+// TestVerifSimTeardownDeadline: Stream.SetReadDeadline starts a goroutine per armed deadline.  Once the
+// teardown of the association has settled it must be gone, (a) when a reader was blocked (the reader cancels
+// it on return), (b) when nobody reads again (unregisterStream cancels it: D28, fixed by 2bd54a4).
+// The inbound stream reset is not a teardown of the association (the stream ends with io.EOF through
+// onInboundStreamReset, not through unregisterStream): what happens to the goroutine there is reported as a
+// SIMNOTE line, not as a failure of C09.
 func TestVerifSimTeardownDeadline(t *testing.T) {
-	fails := 0
+	fails, cases, notes := 0, 0, 0
 	for _, withReader := range []bool{true, false} {
-		for _, inj := range []string{"close", "abort", "rfail"} {
+		for _, inj := range []string{"close", "abort", "rfail", "wfail", "peerabort", "peer-reset"} {
+			cases++
 			label := fmt.Sprintf("deadline/reader=%v/%s", withReader, inj)
 			var lines []string
 			func() {
@@ -1052,7 +1082,10 @@ func TestVerifSimTeardownDeadline(t *testing.T) {
 						return
 					}
 					a := s.assoc[0]
-					st, _ := a.OpenStream(7, PayloadTypeWebRTCBinary)
+					st := s.openStream(0, 7)
+					pst := s.openStream(1, 7)
+					_ = s.write(1, 7, 50, PayloadTypeWebRTCBinary) // the stream exists on both sides
+					s.runFaultFree(time.Second, 100*time.Millisecond, func() bool { return len(s.recvd[0][7]) == 1 })
 					_ = st.SetReadDeadline(time.Now().Add(time.Hour))
 					rd := make(chan error, 1)
 					if withReader {
@@ -1067,9 +1100,42 @@ func TestVerifSimTeardownDeadline(t *testing.T) {
 						a.Abort("x")
 					case "rfail":
 						_ = s.conn[0].Close()
+					case "wfail":
+						s.conn[0].mu.Lock()
+						s.conn[0].failWrite = true
+						s.conn[0].mu.Unlock()
+						tdPoke(a)
+					case "peerabort":
+						d := make(chan struct{})
+						go func() { defer close(d); s.assoc[1].Abort("x") }()
+						synctest.Wait()
+						s.settle()
+						for len(s.flight[1]) > 0 {
+							s.deliver(1, 0, false)
+						}
+						<-d
+					case "peer-reset":
+						_ = pst.Close()
+						s.settle()
+						s.runFaultFree(2*time.Second, 100*time.Millisecond, func() bool { return false })
 					}
 					time.Sleep(time.Second)
 					synctest.Wait()
+					if inj == "peer-reset" {
+						st.lock.RLock()
+						re := st.readErr
+						st.lock.RUnlock()
+						if n := tdCountStack("(*Stream).SetReadDeadline.func1"); n > 0 {
+							notes++
+							fmt.Printf("SIMNOTE prop=C09 after an inbound stream reset (readErr=%v, reader blocked=%v) the read-deadline goroutine of the stream is still waiting (%d alive): onInboundStreamReset does not cancel it | crashpoint=%s\n", re, withReader, n, label)
+						}
+						_, _, _ = st.ReadSCTP(make([]byte, 100))
+						_ = st.SetReadDeadline(time.Time{})
+						s.closeBoth()
+						time.Sleep(time.Second)
+						synctest.Wait()
+						return
+					}
 					if withReader {
 						select {
 						case <-rd:
@@ -1097,7 +1163,7 @@ func TestVerifSimTeardownDeadline(t *testing.T) {
 			}
 		}
 	}
-	fmt.Printf("SIMTDDEADLINE cases=6 fails=%d\n", fails)
+	fmt.Printf("SIMTDDEADLINE cases=%d fails=%d stream_reset_notes=%d\n", cases, fails, notes)
 }
 
 // ---------------------------------------------------------------- T1 failure callback racing with the handshake completion
